@@ -65,6 +65,7 @@ type Violation struct {
 	Widths map[string]uint8
 	Prefix []uint64
 	Trace  []string // observations
+	Preempts []string // source sites ("dir/file.go:line" in the repository under test) at which a thread was preempted
 }
 
 // ---------------------------------------------------------------- path context
@@ -90,6 +91,7 @@ type pathCtx struct {
 	fd      *fdState
 	fdFrom  *fdState // snapshot at the branch point (valid once the prefix is consumed)
 	setup   bool     // concrete setup phase: no forking
+	preempts []string
 }
 
 func newPathCtx(i *interpreter, it WorkItem, budget int64) *pathCtx {
@@ -510,7 +512,7 @@ func (p *pathCtx) check(c *smt.Term, msg string, site string) {
 
 func (p *pathCtx) violation(kind, msg, site string, model map[string]uint64) {
 	v := Violation{Kind: kind, Msg: msg, Site: site, Model: copyModel(model), Prefix: append([]uint64(nil), p.prefix[:p.pos]...),
-		Vars: append([]string(nil), p.order...), Widths: map[string]uint8{}, Trace: p.renderObs(model)}
+		Vars: append([]string(nil), p.order...), Widths: map[string]uint8{}, Trace: p.renderObs(model), Preempts: append([]string(nil), p.preempts...)}
 	for n, t := range p.vars {
 		v.Widths[n] = t.W
 	}
